@@ -62,6 +62,7 @@ let item_str ((b, v) : item) = hex_of b ^ ":" ^ hex_opt v
 
 let () =
   let fx = ref today in
+  let fresh_tmp = ref false in
   let master = ref ([] : dir) in
   let image = ref ([] : dir) in
   let wname = ref (FAppend (n_of_int 1)) in
@@ -83,6 +84,7 @@ let () =
          | "fx" ->
            let b i = t.(i) = "1" in
            fx := { fx_rl_nerr = b 1; fx_rl_short = b 2; fx_hdr = b 3; fx_trunc = b 4 }
+         | "tmpfresh" -> fresh_tmp := (t.(1) = "1")   (* source switch of loadRewriteAofFiles (C16) *)
          | "new" ->
            wbs := eff_bs (int_of_string t.(1));
            wname := if Array.length t > 2 then fname_of_string t.(2) else FAppend (n_of_int 1);
@@ -144,13 +146,14 @@ let () =
          | "mdump" ->
            Printf.printf "dump %s %s\n" (hex_of (getb !master !wname)) (hex_of (getb !master (datn !wname)))
          | "compact" ->
-           (* compact <rotate 0|1> <cur> <now> <bs> <live rechex>... : directory after every prefix of the mutation list *)
+           (* compact <rotate 0|1> <cur> <now> <bs> <live rechex>... : directory after every prefix of the mutation list
+              (variant of loadRewriteAofFiles: command `tmpfresh 0|1`) *)
            let rotate = t.(1) = "1" in
            let cur = n_of_int (int_of_string t.(2)) in
            let now = z_of_int (int_of_string t.(3)) in
            let bs = nat_of_int (eff_bs (int_of_string t.(4))) in
            let live = List.map unhex_b (List.tl (List.tl (List.tl (List.tl (List.tl (Array.to_list t)))))) in
-           let steps = compact_steps (has_lock_of live) !fx bs rotate !image cur now in
+           let steps = compact_steps_v (has_lock_of live) !fx bs !fresh_tmp rotate !image cur now in
            let name_of = function
              | FRewrite -> "rewrite.aof" | FRewriteDat -> "rewrite.aof.dat" | FTmp -> "rewrite.aof.tmp"
              | FTmpDat -> "rewrite.aof.tmp.dat" | FAppend i -> Printf.sprintf "append.aof.%d" (int_of_n i)
